@@ -89,6 +89,14 @@ Lemma duplicate_argument_refuted :
   check_operation_document w_schema_0 w_doc_4 = [] /\ rule_ok w_schema_0 w_doc_4 R_literal_types = false.
 Proof. split; vm_compute; reflexivity. Qed.
 
+(** fixed in /repo (commit 556742c): Int literals outside the signed 32-bit range are rejected; the boundary values
+    are accepted, and Float / ID arguments take any integer literal (corpus document 17: exactly two errors) *)
+Lemma int_range_flagged :
+  length (check_operation_document w_schema_0 w_doc_17) = 2
+  /\ parse_i32 (s "2147483647") = true /\ parse_i32 (s "-2147483648") = true
+  /\ parse_i32 (s "2147483648") = false /\ parse_i32 (s "-2147483649") = false /\ parse_i32 (s "-") = false.
+Proof. repeat split; vm_compute; reflexivity. Qed.
+
 (** the same documents satisfy every rule on the visible sites: the guard of the theorems below is exactly
     what separates them *)
 Example blind_spots_are_outside_the_visible_sites :
@@ -283,8 +291,8 @@ Lemma check_operation_nil fuel S fm o :
     /\ check_selection_set fuel S fm (op_vars o) [] root (op_sel o) = [].
 Proof.
   unfold check_operation. intros H.
-  destruct (if negb (pbuiltin (r_pos (root_types S))) then _ else None) as [es|] eqn:E0.
-  - destruct (negb (pbuiltin (r_pos (root_types S)))); [|discriminate].
+  destruct (if negb (pbuiltin (r_pos (root_types S))) || _ then _ else None) as [es|] eqn:E0.
+  - destruct (negb (pbuiltin (r_pos (root_types S))) || _); [|discriminate].
     destruct (root_of (root_types S) (op_type o)); [discriminate|].
     injection E0 as <-. discriminate.
   - destruct (get_type S _) as [root|] eqn:Er; [|discriminate].
